@@ -1061,6 +1061,7 @@ func (ds *Dataset) MapEntitiesRaw(from string, count int, processEntity func(jso
 			if err != nil {
 				return err
 			}
+			verifhook.Point("ds.entities.afterEntry")
 
 			if taken == count {
 				break
@@ -1166,6 +1167,7 @@ func (ds *Dataset) ProcessChangesRaw(
 			if err != nil {
 				return err
 			}
+			verifhook.Point("ds.changes.afterEntry")
 
 			if limit > 0 && int(processed) == limit {
 				break
